@@ -5,6 +5,7 @@ import vcheck
 PROP = "C10"
 
 TRUSTED = [
+    "go2coq translator (harness/cmd/go2coq, semantics coq/lib/GoSem.v): props/C10/coq/Gen.v is regenerated from the Go source of proxy/bulk documentDelayed, seq.TimeToMID, seq.DurationToMID, seq.MIDToDuration on every run; supported subset: integer/boolean expressions over int, int64, uint64, uint32, uint8 and named integer types with explicit wrap-around, truncated signed division, checked division/indexing/slicing/shift counts (Panic), if/else with early return, local assignments, tuples, calls between translated functions, min/max/len, numeric struct fields, fuelled for-loops, range loops as folds; anything else is rejected (red gate). externs (props/C10/coq/GenPrelude.v, hand-written): time.Time.UnixNano -> time_UnixNano (count of nanoseconds wrapped to int64); delays.Inc / futureDelays.Inc = no effect on the result. Validated on every run by the gen-* correspondence classes (real function vs generated definition on boundary and random arguments)",
     "Coq 8.16.1 kernel (coqc), vm_compute for case evaluation; no native_compute",
     "hand-written model props/C10/coq/Model.v of bufio.Reader.ReadLine, esBulkDocReader.ReadDoc/skipActionLine/readDoc,"
     " the ProcessDocuments loop, the docs payload, extractDocTime/parseESTime/documentDelayed/TimeToMID, and ModelMeta.v of"
